@@ -2,3 +2,4 @@ pub mod csim;
 pub mod hooks;
 pub mod raw;
 pub mod units;
+pub mod psim;
